@@ -167,6 +167,8 @@ def map_scenario(sc):
             what = p[len('gochannel.publish.'):]
             if what == 'all_acked':
                 addb(seq, seq, 'GAllAcked %d' % msg_no(k[0])); continue
+            if what == 'fanout_start':      # stamp of the fan-out goroutine (a parking point only; no model step)
+                continue
             t = pub_g.get(g)
             if t is None:
                 m.problems.append('publish hook outside a Publish call: ' + what); continue
